@@ -281,6 +281,10 @@ func (e *Exec) callFunc(fv *FuncV, args []Value, site string) Value {
 		return e.callBuiltin(fv.Builtin, args, nil)
 	}
 	fn := fv.Fn
+	if e.initMode && e.depth > 0 && fn.Synthetic == "package initializer" {
+		// dependencies are initialised lazily, when one of their globals is touched
+		return nil
+	}
 	name := fn.String()
 	if in, ok := e.W.intrinsic(fn, name); ok {
 		if e.stubs != nil && !e.initMode {
